@@ -164,6 +164,7 @@ class Interp:
         self.depth = depth        # nesting of callee summaries
         self.keep = keep          # record the state at every normal return, never drop dead variables
         self._dead = False
+        self._tables = {}
         self.kr = {}          # key -> type range
         self.edeps = {}       # e-key text -> (deps frozenset, pointer_based)
         self._lv_cache = {}
@@ -369,6 +370,43 @@ class Interp:
         if info is not None:
             return ('e', info[0])
         return None
+
+    def const_array(self, recv):
+        """values of a const std::array local whose initialiser is a list of integer constants (a lookup table), else None"""
+        fn = self.fn
+        r = fn.nodes.get(fn.strip(recv))
+        if r is None or r.get('k') != 'var' or r.get('vk') != 'local':
+            return None
+        d = r['d']
+        if d in self._tables:
+            return self._tables[d]
+        out = None
+        for n in fn.all_nodes():
+            if n.get('k') != 'decl':
+                continue
+            for v in n['vars']:
+                if v['d'] == d and v['tC'].startswith('const std::array<') and isinstance(v.get('init'), int):
+                    leaves = []
+                    ok = True
+                    stack = [v['init']]
+                    while stack:
+                        x = fn.nodes.get(stack.pop())
+                        if x is None:
+                            ok = False
+                        elif x.get('k') == 'initlist':
+                            stack.extend(reversed(x.get('args', [])))
+                        elif x.get('k') in ('wrap', 'icast') and 'cv' not in x and 'sub' in x:
+                            stack.append(x['sub'])
+                        else:
+                            c = fn.const_value(x['id'])
+                            if c is None:
+                                ok = False
+                            else:
+                                leaves.append(c)
+                    if ok and leaves:
+                        out = leaves
+        self._tables[d] = out
+        return out
 
     # ------------------------------------------------------------------ state helpers
     def get(self, st, key):
@@ -695,6 +733,13 @@ class Interp:
                         if iv is not None:
                             st[key] = iv if inside(iv, r) else r
             return None
+        if k == 'call' and n.get('q') in ('std::array::operator[]', 'std::array::at') and n.get('args') and n.get('recv') is not None:
+            tab = self.const_array(n['recv'])
+            if tab is not None and type_range(t) is not None:
+                iv = sub(n['args'][0])
+                lo, hi = (0, len(tab) - 1) if iv is None else (max(iv[0], 0), min(iv[1], len(tab) - 1))
+                if lo <= hi:
+                    return (min(tab[lo:hi + 1]), max(tab[lo:hi + 1]))
         if k in ('call', 'construct', 'new', 'delete', 'autodtor'):
             if not pure:
                 q = n.get('q', '')
